@@ -2,7 +2,10 @@
 // Fingerprint monitor: every read-only entry point is driven with transactions that WOULD
 // write; the ledger's observable state and (at batch boundaries) a byte-level dump of every
 // on-disk store must be unchanged, a probe block must execute identically, and the ledger
-// must afterwards evolve exactly like a reference ledger that never saw a pre-execution.
+// must afterwards evolve exactly like a reference ledger that never saw a pre-execution — one in this
+// process and one in a separate process (child.go) that shares no process-wide state with the ledger
+// under test.  lab.go adds the "phantom then real" scenarios and the hook-placed pre-executions that make
+// the lock-step differential sensitive to in-memory channels which leave the stores untouched.
 package main
 
 import (
@@ -187,8 +190,11 @@ func genPre(w *chain.World, rng *vf.RNG, dz common.Address, evmNonce []uint64) p
 }
 
 func main() {
+	if os.Getenv(childDirEnv) != "" {
+		childMain() // the isolated reference ledger (child.go); never returns
+	}
 	r = vf.NewRun("C42", "exploration",
-		"a populated solo ledger; seeded pre-execution requests through PreExecuteContract, PreExecuteContractBatch(atomic=t/f), PreExecuteEIP155, PreExecuteEip155Tx, TraceEip155Tx, each carrying a transaction that would write (token transfer with fee, storage put/delete, approve, deploy, contract destroy, notify, EVM transfer / create+SSTORE+LOG); after every request the API-level fingerprint, per batch the byte dump of every on-disk store and a probe block's execution are compared; then both this ledger and a reference that never saw pre-executions commit the same further blocks. distinct by (entry point/kind, height, request index)")
+		"a populated solo ledger A; (1) seeded pre-execution requests through PreExecuteContract, PreExecuteContractBatch(atomic=t/f), PreExecuteEIP155, PreExecuteEip155Tx, TraceEip155Tx, each carrying a transaction that would write (token transfer with fee, storage put/delete, approve, deploy, contract destroy, notify, EVM transfer / create+SSTORE+LOG); after every request the API-level fingerprint, per batch the byte dump of every on-disk store and a probe block's execution are compared. (2) A, an in-process reference and a reference ledger in a SEPARATE PROCESS (shares no process-wide state with A) that never see a pre-execution commit the same further blocks and must agree after every block on state dump, merkle roots and event records. (3) 'phantom then real' scenarios: a pre-execution that would create / change / destroy something addressable (EVM CREATE, CREATE2 and top-level creation with the child address computed; SELFDESTRUCT of a real child; value to a fresh EVM account; Ontology.Contract.Create, Destroy, Migrate; ONT/ONG to a fresh account; approve / spent allowance; ONT ID registration; storage put / delete) placed between blocks, between ExecuteBlock and SubmitBlock, or inside submitBlock through the VerifCrashPoint hook, followed in the next blocks by mined transactions whose persisted outcome depends on that thing (EXTCODESIZE/EXTCODEHASH/BALANCE/CALL stored by a probe contract, APPCALL, Storage.Get+Put, balanceOf/allowance recorded in storage and notified, transferFrom, re-registration, redeploy), then the real creation and a second probe. (4) hook-placed reads: while A commits a block that creates fresh keys (balances, allowance, storage key, EVM account, EVM contract) pre-executions read exactly those keys at a seeded point of submitBlock before stateStore.CommitTo; the next two blocks read-modify-write them. distinct by (entry point/kind, placement, height, request index)")
 	scratch := vf.Scratch("c42")
 	defer os.RemoveAll(scratch)
 	rng := vf.NewRNG(vf.Seed())
@@ -204,11 +210,25 @@ func main() {
 	if err != nil {
 		panic(err)
 	}
+	// a second reference in a separate process: immune to process-wide state shared by A and ref
+	dirX := filepath.Join(scratch, "X")
+	xr, err := startIsolatedRef(dirX, tag)
+	if err != nil {
+		panic(err)
+	}
 	dzCode := destroyContractCode()
 	dz := common.AddressFromVmCode(dzCode)
 	evmNonce := make([]uint64, len(w.Eth))
 	winN := 0
+	lb := newLab(tag, w, a, ref)
+	diverged := false // after the first divergence the two ledgers no longer accept the same blocks: stop
 	commitBoth := func(h int) {
+		if xr.hasDiverged() {
+			diverged = true
+		}
+		if diverged {
+			return
+		}
 		var txs []*types.Transaction
 		switch h {
 		case 1:
@@ -216,6 +236,7 @@ func main() {
 			d, _ := w.TB.Deploy(0, 30000000, dzCode, "dz")
 			chain.Sign(d, w.BK)
 			txs = append(txs, chain.Immutable(d))
+			txs = append(txs, lb.fundingTxs()...)
 		default:
 			var kinds []string
 			txs, kinds = w.RandomTxs(rng.Sub(uint64(h)), 6)
@@ -230,18 +251,41 @@ func main() {
 				}
 			}
 		}
+		if h == 2 {
+			txs = append(txs, lb.deployTxs()...)
+		}
+		// transactions, window / hook pre-executions and observations the scenarios of lab.go scheduled for this height
+		sl := lb.slot(h)
+		defer delete(lb.slots, h)
+		for _, f := range sl.txs {
+			txs = append(txs, f()...)
+		}
 		b, err := a.MakeBlock(txs, 0)
 		if err != nil {
 			panic(err)
+		}
+		// pre-executions served INSIDE the commit of this block on ledger A (the callback runs on the committing
+		// goroutine, which holds the saving lock; the hook is global, so it is cleared before the reference commits)
+		hookRan := 0
+		if len(sl.hook) > 0 {
+			ledgerstore.VerifCrashPoint = func(name string, height uint32) {
+				if height != uint32(h) {
+					return
+				}
+				for _, p := range sl.hook[name] {
+					lb.runPre(p, "hook:"+name, true)
+					hookRan++
+				}
+			}
 		}
 		// the split API the consensus services use: ExecuteBlock, (requests arrive), SubmitBlock.  On some
 		// blocks pre-executions are served inside that window; the committed result must not notice.
 		var resA store.ExecuteResult
 		var errA error
-		if h >= 2 && h%2 == 0 {
+		if (h >= 2 && h%2 == 0) || len(sl.window) > 0 {
 			resA, errA = a.Ledger.ExecuteBlock(b)
 			if errA == nil {
-				for i := 0; i < 6; i++ {
+				for i := 0; h%2 == 0 && i < 6; i++ {
 					winN++
 					pe := genPre(w, rng.Sub(uint64(winN)+5000000), dz, evmNonce)
 					if p := vf.Catch(func() { pe.run(a) }); p != nil {
@@ -250,29 +294,66 @@ func main() {
 					r.Count("preexec_between_execute_and_submit")
 					r.Eval(fmt.Sprintf("window/%s/%d/%d", pe.kind, h, i))
 				}
+				for _, p := range sl.window {
+					lb.runPre(p, "between-execute-and-submit", false)
+				}
 				errA = a.SubmitExecuted(b, resA)
 			}
 		} else {
 			resA, errA = a.CommitExec(b)
 		}
+		ledgerstore.VerifCrashPoint = nil
+		if n := 0; len(sl.hook) > 0 {
+			for _, ps := range sl.hook {
+				n += len(ps)
+			}
+			if hookRan != n && errA == nil {
+				r.Inconclusive(fmt.Sprintf("height %d: %d of %d hook-placed pre-executions ran (hook point names changed?)", h, hookRan, n))
+			}
+		}
 		// the reference ledger receives the same block through the sync path
 		errR := ref.CommitSync(b, resA.MerkleRoot)
 		if errA != nil || errR != nil {
-			r.Violation("ledger-with-preexec-diverges-from-reference:commit", fmt.Sprintf("A: %v / reference: %v", errA, errR), map[string]interface{}{"height": h})
+			wit := map[string]interface{}{"height": h, "recent_preexecutions": lb.recentList()}
+			if resR, err := ref.Ledger.ExecuteBlock(b); err == nil && errA == nil && errR != nil {
+				wit["write_set_diff(reference -> A)"] = chain.DiffDumps(writeSet(resR), writeSet(resA), 6)
+			}
+			r.Violation("ledger-with-preexec-diverges-from-reference:commit", fmt.Sprintf("A: %v / reference: %v", errA, errR), wit)
+			diverged = true
 			return
 		}
 		fa, fr := a.Fingerprint(), ref.Fingerprint()
 		if d := fa.Diff(fr); d != "" {
-			r.Violation("ledger-with-preexec-diverges-from-reference:"+d, d, map[string]interface{}{"height": h})
+			_, _, da := a.DumpState()
+			_, _, dr := ref.DumpState()
+			r.Violation("ledger-with-preexec-diverges-from-reference:"+d, d, map[string]interface{}{"height": h, "recent_preexecutions": lb.recentList(), "state_diff(reference -> A)": chain.DiffDumps(dr, da, 6)})
+			diverged = true
+			return
+		}
+		if ea, er := eventsJSON(a, uint32(h)), eventsJSON(ref, uint32(h)); ea != er {
+			r.Violation("ledger-with-preexec-diverges-from-reference:event records", "event notifies of the block differ", map[string]interface{}{"height": h, "recent_preexecutions": lb.recentList(), "A": trunc(ea, 1500), "reference": trunc(er, 1500)})
+			diverged = true
+			return
 		}
 		r.Count("blocks_compared_with_reference")
+		// the same block goes to the reference that shares no process state with ledger A (answers are judged as they arrive)
+		xr.submit(a, b, resA, fa, lb.recentList())
+		for _, f := range sl.checks {
+			f()
+		}
+		for _, p := range sl.after {
+			lb.runPre(p, "between-blocks", false)
+		}
 	}
 	H := vf.N(8, 30)
 	perBatch := vf.N(60, 500)
 	n := 0
-	for h := 1; h <= H; h++ {
+	for h := 1; h <= H && !diverged; h++ {
+		if h >= 3 && h+4 <= H { // a few scenarios already here, next to the random batches
+			lb.start(h, rng.Sub(uint64(h)+9000000), scenarioKinds[(h+int(vf.Seed()%97))%len(scenarioKinds)])
+		}
 		commitBoth(h)
-		if h < 2 {
+		if h < 2 || diverged {
 			continue
 		}
 		// ---- a batch of pre-executions against height h
@@ -322,8 +403,29 @@ func main() {
 		}
 		r.Count("probe_block_compared")
 	}
+	// ---- scenario stage: "phantom then real" pairs and hook-placed reads (lab.go), several per block
+	L := vf.N(40, 120)
+	for h := H + 1; h <= H+L && !diverged; h++ {
+		if h+4 <= H+L {
+			sr := rng.Sub(uint64(h) + 9000000)
+			perm := sr.Perm(len(scenarioKinds))
+			for i := 0; i < 3; i++ {
+				// every kind comes round regularly, the order is seeded
+				kind := scenarioKinds[(perm[i]+h)%len(scenarioKinds)]
+				if i == 0 {
+					kind = scenarioKinds[h%len(scenarioKinds)]
+				}
+				lb.start(h, sr.Sub(uint64(i)), kind)
+			}
+			if sr.Chance(60) {
+				lb.startHook(h, sr.Sub(77))
+			}
+		}
+		commitBoth(h)
+	}
+	H += L
 	// ---- concurrent variant: pre-executions racing with block commits (race detector in thorough)
-	{
+	if !diverged {
 		var wg sync.WaitGroup
 		stop := make(chan struct{})
 		for g := 0; g < 3; g++ {
@@ -353,6 +455,17 @@ func main() {
 	}
 	a.Close()
 	ref.Close()
+	if fail := xr.finish(); fail != "" {
+		r.Inconclusive("isolated reference process: " + fail)
+	} else if !diverged && !xr.hasDiverged() {
+		da, dx := diskDump(dirA, filepath.Join(scratch, "dumpA")), diskDump(dirX, filepath.Join(scratch, "dumpX"))
+		for _, k := range []string{ledgerstore.DBDirState, ledgerstore.DBDirEvent, "merkle_tree.db"} {
+			if da[k] != dx[k] {
+				r.Violation("final-disk-state-differs-from-isolated-reference:"+k, da[k]+" vs "+dx[k], nil)
+			}
+		}
+		r.Count("final_disk_compared_with_isolated_reference")
+	}
 	da, dr := diskDump(dirA, filepath.Join(scratch, "dumpA")), diskDump(dirR, filepath.Join(scratch, "dumpR"))
 	// block store holds signatures (same bytes here: same block objects), event/state must match
 	for _, k := range []string{ledgerstore.DBDirState, ledgerstore.DBDirEvent, "merkle_tree.db"} {
@@ -371,6 +484,40 @@ func main() {
 	r.Require("blocks_compared_with_reference", 8)
 	r.Require("concurrent_preexec", 20)
 	r.Require("preexec_between_execute_and_submit", 12)
+	r.Require("blocks_compared_with_isolated_reference", 30)
+	r.Require("final_disk_compared_with_isolated_reference", 1)
+	for _, k := range scenarioKinds {
+		r.Require("scenario/"+k, 2)
+		r.Require("phantom/"+k+"/preexec_effective", 2)
+	}
+	for _, k := range []string{"evm-factory-create", "evm-toplevel-create", "evm-value-to-fresh", "neo-contract-create", "neo-contract-migrate", "native-fresh-balance", "native-allowance", "ontid-register", "kv-fresh-key"} {
+		r.Require("phantom/"+k+"/probed_while_absent_on_chain", 1)
+	}
+	for _, k := range []string{"evm-factory-create", "evm-toplevel-create", "neo-contract-create", "neo-contract-migrate"} {
+		r.Require("phantom/"+k+"/probed_after_it_became_real", 1)
+	}
+	for _, k := range []string{"evm-selfdestruct", "neo-contract-destroy", "native-allowance-spent", "kv-deleted-key"} {
+		r.Require("phantom/"+k+"/probed_while_still_on_chain", 1)
+	}
+	r.Require("phantom/evm/computed_child_address_confirmed", 1)
+	for _, k := range append(append([]string{}, neoEntries...), evmEntries...) {
+		r.Require("phantom_entry/"+k, 1)
+	}
+	for _, k := range []string{"between-blocks", "between-execute-and-submit", "hook:" + hookPoints[0], "hook:" + hookPoints[2], "hook:" + hookPoints[3]} {
+		r.Require("phantom_preexec_placed/"+k, 3)
+	}
+	r.Require("hook_scenario/"+hookPoints[0], 3)
+	r.Require("hook_scenario_keys_read_modify_written", 3)
+	for _, k := range []string{"balanceOf", "allowance", "evm-probe", "evm-probe-child", "storage-get", "transfer-to-fresh", "evm-value"} {
+		r.Require("phantom/hook-read/"+k+"/preexec_effective", 3)
+	}
+	for _, k := range []string{"evm-probe-call", "neo-contract-create/call-of-undeployed-contract-fails", "neo-contract-create/call-of-deployed-contract-succeeds",
+		"neo-contract-destroy/call-of-live-contract-succeeds", "neo-contract-destroy/call-of-destroyed-contract-fails", "neo-contract-migrate/call-of-migration-target-fails",
+		"neo-contract-migrate/call-of-migration-target-succeeds", "native-fresh-balance/spending-from-empty-account-fails", "native-allowance/transferFrom-without-allowance-fails",
+		"native-allowance/transferFrom-with-allowance-succeeds", "native-allowance-spent/transferFrom-of-unspent-allowance-succeeds", "ontid-register/first-real-registration-succeeds",
+		"ontid-register/second-registration-fails", "kv-fresh-key/append-to-absent-key-succeeds", "hook/transferFrom-of-the-allowance-created-during-the-hook-block-succeeds"} {
+		r.Require("onchain/"+k+"/as_intended", 1)
+	}
 	if racelog.Enabled {
 		racelog.Apply(r, "core/store/ledgerstore/", "smartcontract/storage/", "core/store/overlaydb/")
 	}
@@ -385,6 +532,13 @@ func eventsJSON(c *chain.Chain, h uint32) string {
 	}
 	b, _ := json.Marshal(ev)
 	return string(b)
+}
+
+func trunc(s string, n int) string {
+	if len(s) > n {
+		return s[:n] + "…"
+	}
+	return s
 }
 
 func kindClass(k string) string {
